@@ -247,8 +247,21 @@ def specComplete (h : List Op) (failAt : Option Nat) (o : Obs) : Option String :
         if late.all (fun g => after.contains g.1) && (late.map (·.1)).eraseDups.length = late.length
         then none else some "unexpected-extra-events"
 
+/-- C02's order clause, for EVERY history (no hypothesis on PIDs, LOGIN records, cleanups): with a writer that works,
+the events emitted for a session are some of the session's records, in the order in which the records were
+delivered, none more often than it was delivered — their time stamps are a subsequence of the time stamps of the
+session's records. (Proved of the model for all histories: `C02S.order_spec_holds`.) -/
+def specOrderOnce (h : List Op) (failAt : Option Nat) (o : Obs) : Option String :=
+  if failAt.isSome then none else
+  o.acts.findSome? fun (a : ObsAction) =>
+    let got := (o.acts.filter fun (b : ObsAction) => b.aid = a.aid).map (·.ts)
+    let recs := (auditRecs h).filterMap fun r => if r.2.ses = a.aid then some r.2.ts else none
+    if got.isSublist recs then none else some "events-of-a-session-reordered-or-repeated"
+
 def specC02 (h : List Op) (failAt : Option Nat) (o : Obs) : Option String :=
-  if !wfNoReuse h then none else specComplete h failAt o
+  match specOrderOnce h failAt o with
+  | some c => some c
+  | none => if !wfNoReuse h then none else specComplete h failAt o
 
 /-- C09: with PIDs reused after the earlier session ended, every event carries the identity of the
 login of its own use of the PID, and the sessions of the later uses are emitted completely -/
